@@ -753,6 +753,16 @@ func ApplyDefect(c *Chooser, d Doc, kind, posClass int) []byte {
 		}
 	case DefBadAtom:
 		if o := pickSite(c, d, posClass, siteAtom); o >= 0 {
+			if c.Intn("atomtail", 3) == 0 {
+				// a byte directly behind the complete literal, in front of its separator: true\x00, null0, falsex ...
+				n := 4
+				if b[o] == 'f' {
+					n = 5
+				}
+				if o+n <= len(b) {
+					return ins(o+n, []string{"\x00", "\x01", "x", "0", "\"", "\x7f", "\x80", "e"}[c.Intn("atomtailch", 8)])
+				}
+			}
 			out := append([]byte(nil), b...)
 			out[o+1+c.Intn("atomoff", 3)] = "xX_0\x00\""[c.Intn("atomch", 6)]
 			return out
@@ -797,7 +807,24 @@ func ApplyDefect(c *Chooser, d Doc, kind, posClass int) []byte {
 		return append([]byte(nil), b[:anyOff()]...)
 	case DefBadByte:
 		out := append([]byte(nil), b...)
-		out[anyOff()] = []byte{0, 1, '"', '\\', '{', '}', '[', ']', ',', ':', 'x', '-', '0', 0x80, 0xff, ' ', '\n'}[c.Intn("bb", 17)]
+		off := anyOff()
+		if c.Intn("bbtokenend", 3) == 0 {
+			// the byte directly behind a token (atom, number, string): a separator or closer replaced there is what the
+			// token's own end check has to notice (a NUL behind true/false/null used to pass for the end of the atom)
+			var cands []int
+			for i := 1; i < len(b) && len(cands) < 4096; i++ {
+				switch b[i] {
+				case ',', ']', '}', ':', ' ', '\n', '\t', '\r':
+					if p := b[i-1]; p == '"' || p >= '0' && p <= '9' || p >= 'a' && p <= 'z' {
+						cands = append(cands, i)
+					}
+				}
+			}
+			if len(cands) > 0 {
+				off = cands[c.Intn("bbtokenendpos", len(cands))]
+			}
+		}
+		out[off] = []byte{0, 1, '"', '\\', '{', '}', '[', ']', ',', ':', 'x', '-', '0', 0x80, 0xff, ' ', '\n'}[c.Intn("bb", 17)]
 		return out
 	}
 	// fallback: truncate
